@@ -189,7 +189,7 @@ def gen_race_history(w, rng, tier, regime=None, restarts=True, ties=True, p_rewr
         # an observer re-wraps a published event (same ciphertext, fresh ephemeral key, chosen timestamp)
         if new and rng.random() < w.meta.get("p_rewrap", 0.25):
             victim = rng.choice(new)
-            r, _ = w.do(f"rewrap {victim} {base + rng.choice([-8, -3, 0, 4, 9])}")
+            r, _ = w.do(f"rewrap {victim} {base + rng.choice([-8, -3, 0, 4, 9] if ties else [-8, -3, 4, 9])}")
             m = re.match(r"ev=(\d+) idnum=(\d+) ts=(-?\d+)", r)
             if m:
                 k = int(m.group(1))
@@ -204,7 +204,7 @@ def gen_race_history(w, rng, tier, regime=None, restarts=True, ties=True, p_rewr
         nonadmins = [c for c in alive if c not in admins]
         if nonadmins and rng.random() < p_adv:
             a = rng.choice(nonadmins); victim = rng.choice([c for c in alive if c != a])
-            e = w.publish(f"advremove {a} {victim} {base + rng.choice([-9, -4, 0, 3, 8])}", "commit", a)
+            e = w.publish(f"advremove {a} {victim} {base + rng.choice([-9, -4, 0, 3, 8] if ties else [-9, -4, 5, 8])}", "commit", a)
             if e is not None:
                 w.events[e]["adv"] = True
                 new.append(e)
@@ -338,7 +338,9 @@ def oracle_world(w):
                             sig = "rewrapped-commit-rollback"
                     fail("C06", sig, i, f"`{cmd}` returned {r0} but the projection changed: {proj(before)} -> {proj(f)}")
                 evd = w.events.get(int(t[2]), {})
-                if r0 == "commit" and evd.get("adv") and before["token"] != f["token"]:
+                if r0 == "commit" and evd.get("adv") and before["token"] != f["token"] and c != evd.get("sender") and f["epoch"] > before["epoch"]:
+                    # (the crafter's own client is the adversary's business; a receiver that only ROLLED BACK for the
+                    # forged commit is the open finding rollback-before-authorisation, reported by the frame rule)
                     fail("C05", "nonadmin-commit-accepted", i, f"`{cmd}`: the Remove commit a NON-admin (c{evd.get('sender')}) built with the MLS library was applied: {proj(before)} -> {proj(f)}")
                 key = (c, int(t[2]))
                 rec = before["recs"].get(int(t[2]))
@@ -668,9 +670,11 @@ def oracle_c11(pairs):
                 what += f" | first differing call `{first[0][0]}`: without={first[0][1]} with={first[1][1]}"
                 if first[0][0].startswith("deliver") and first[1][1].startswith("commit") and not first[0][1].startswith("commit"):
                     sig = "restart-enables-rollback"
-                elif not (first[0][0].startswith("deliver") and first[0][1].startswith("commit")) or first[1][2]:
-                    # the known defect is a REFUSAL that leaves the restarted client where it was; anything else
-                    # (another call differs, or the restarted client moved — e.g. rolled back — at that call) is new
+                elif not (first[0][0].startswith("deliver") and first[1][1] == "unprocessable" and not first[1][2]
+                          and (first[0][1].startswith("commit") or first[0][2])):
+                    # the known defect: after the restart a delivery is REFUSED (unprocessable) and the client stays where it
+                    # was, while the uninterrupted client accepted the commit or at least rolled back for it (the latter is
+                    # rollback-before-authorisation for a forged commit); anything else is new
                     sig = "restart-changes-result"
             stats["stepwise_only"] = stats.get("stepwise_only", 0) + (va == vb)
             fails.append({"kind": "oracle", "prop": "C11", "props": ["C11", "C01"], "signature": sig if nrest else "nondeterministic-outcome",
